@@ -67,3 +67,60 @@ def carried_containers(fl, loop, outputs: Set[str] = frozenset()) -> Dict[str, T
                     continue
                 out.setdefault(name, (m, n))
     return out
+
+
+def crossed_arguments(proj, modules):
+    """Calls of project functions in which a plain variable is passed *by position* into a parameter of another name although the callee
+    has a parameter of exactly the variable's name (`f(a, b, period_data)` landing in `existing_vars` while f also takes `period_data`).
+    Yields (caller FuncInfo, call node, variable name, parameter it lands in)."""
+    from ..callgraph import get_cg
+    from ..project import FuncInfo
+    cg = get_cg(proj)
+    for f in proj.all_funcs():
+        if f.module.short not in modules:
+            continue
+        for c in ast.walk(f.node):
+            if not isinstance(c, ast.Call):
+                continue
+            ts = [t for t in cg.resolve(f, c) if isinstance(t, FuncInfo)]
+            if len(ts) != 1:
+                continue
+            t = ts[0]
+            params = [a.arg for a in t.node.args.args]
+            if params and params[0] in ('self', 'cls') and t.cls is not None:
+                params = params[1:]
+            given_kw = {k.arg for k in c.keywords}
+            for i, a in enumerate(c.args):
+                if isinstance(a, ast.Name) and i < len(params) and a.id in params and params[i] != a.id and a.id not in given_kw:
+                    yield f, c, a.id, params[i]
+
+
+FRESH_CALLS = {'list', 'dict', 'set', 'sorted', 'tuple', 'copy', 'deepcopy', 'defaultdict', 'frozenset', 'reversed', 'str', 'int', 'float', 'join', 'format', 'replace', 'strip', 'lower', 'upper', 'split'}
+
+
+def alias_mutations(fl):
+    """In-place changes of an object that the function did not create: `x = data.get('tags', [])` … `x += […]` / `x.append(…)` / `x.sort()`.
+    Yields (statement, local name, the definition that makes it an alias)."""
+    cfg = fl.cfg
+
+    def alias_def(name, at):
+        for d in cfg.defs_reaching(at, name):
+            if d == 'param':
+                continue
+            v = getattr(cfg.stmt[d], 'value', None)
+            if v is None:
+                continue
+            if isinstance(v, ast.Subscript) or (isinstance(v, ast.Call) and isinstance(v.func, ast.Attribute) and v.func.attr in ('get', 'setdefault', 'pop')) or isinstance(v, ast.Attribute):
+                return cfg.stmt[d]
+        return None
+    for s in cfg.stmts():
+        if isinstance(s, ast.AugAssign) and isinstance(s.target, ast.Name) and isinstance(s.op, ast.Add) and isinstance(s.value, (ast.List, ast.ListComp, ast.Tuple)) is not False \
+                and isinstance(s.value, (ast.List, ast.ListComp)):
+            d = alias_def(s.target.id, s)
+            if d is not None:
+                yield s, s.target.id, d
+        if isinstance(s, ast.Expr) and isinstance(s.value, ast.Call) and isinstance(s.value.func, ast.Attribute) and isinstance(s.value.func.value, ast.Name) \
+                and s.value.func.attr in ('append', 'extend', 'insert', 'sort', 'reverse', 'remove', 'clear', 'update', 'add', 'discard'):
+            d = alias_def(s.value.func.value.id, s)
+            if d is not None:
+                yield s, s.value.func.value.id, d
